@@ -500,7 +500,7 @@ bool build_x86_function(x86::Compiler& cc, const FuncParams& fp, RecordingHandle
   std::vector<x86::Vec> vec_extra;
   if (fp.vec) {
     vec0 = cc.new_xmm("x0"); vec1 = cc.new_xmm("x1"); if (eh.first != Error::kOk) return false;
-    if (avx) { CK(cc.vpxor(vec0, vec0, vec0)); CK(cc.vmovd(vec1, any().r32())); CK(cc.vpaddd(vec0, vec0, vec1)); }
+    if (avx) { CK(cc.vpxor(vec0, vec0, vec0)); CK(cc.vmovd(vec1, any().r32())); CK(cc.vpaddd(vec0, vec0, vec1)); CK(cc.vshufps(vec0, vec0, vec1, Imm(uint32_t(fp.seed) & 0xff))); }   // (four operands)
     else { CK(cc.pxor(vec0, vec0)); CK(cc.movd(vec1, any().r32())); CK(cc.paddd(vec0, vec1)); }
     for (uint32_t i = 0; i < fp.vec_live; i++) {
       x86::Vec v = cc.new_xmm("xl%u", i); if (eh.first != Error::kOk) return false;
@@ -630,6 +630,7 @@ bool build_a64_function(a64::Compiler& cc, const FuncParams& fp, RecordingHandle
     a64::Gp v = cc.new_gp64("v%u", i);
     if (eh.first != Error::kOk) return false;
     CK(cc.add(v, vals[r.below(vals.size())], int32_t(r.below(1000))));
+    if ((i & 3) == 3) CK(cc.madd(v, v, vals[r.below(vals.size())], vals[r.below(vals.size())]));   // (four operands)
     vals.push_back(v);
   }
   auto any = [&]() -> a64::Gp& { return vals[r.below(vals.size())]; };
